@@ -123,6 +123,11 @@ pub mod verif {
         data_type.bit_size()
     }
 
+    /// Normalized intensity or color for the limits `min`..`max` as the simple iterator computes it.
+    pub fn normalize(min: f64, max: f64, value: f64) -> crate::Result<f32> {
+        crate::pc_reader_simple::verif_normalize(min, max, value)
+    }
+
     /// Serialize one value into a byte stream buffer.
     pub fn write_value(
         data_type: &crate::RecordDataType,
